@@ -158,18 +158,19 @@ struct GenOpts { int max_dim = 9; uint64_t max_coef = 4000; int max_aux = 40; };
 
 inline Spec gen_spec(Rng& r, const GenOpts& g, int force_dim = 0) {
   Spec s;
+  int distinct = 5, tries = 0;
   for (;;) {
     int nd = force_dim ? force_dim : r.range(1, g.max_dim);
     std::vector<int> len;
     // pairwise different lengths as far as the size budget allows, the rest 1 or 2; never a palindrome
     std::vector<int> pool = {2, 3, 4, 5, 6, 7, 8, 9, 10, 11, 12};
     for (int i = 0; i < nd; i++) {
-      if (i < 5 && !pool.empty()) { size_t j = r.below(nd <= 3 ? pool.size() : std::min<size_t>(pool.size(), 6)); len.push_back(pool[j]); pool.erase(pool.begin() + j); }
+      if (i < distinct && !pool.empty()) { size_t j = r.below(nd <= 3 ? pool.size() : std::min<size_t>(pool.size(), 6)); len.push_back(pool[j]); pool.erase(pool.begin() + j); }
       else len.push_back(r.range(1, 2));
     }
     for (int i = nd - 1; i > 0; i--) std::swap(len[i], len[r.below(i + 1)]);
     uint64_t nc = 1; for (int v : len) nc *= v;
-    if (nc > g.max_coef) continue;
+    if (nc > g.max_coef) { if (++tries % 20 == 0 && distinct > 1) distinct--; continue; }   // size budget: fewer pairwise-different axes
     bool pal = nd > 1; for (int i = 0; i < nd; i++) if (len[i] != len[nd - 1 - i]) pal = false;
     if (pal) continue;
     s.order.clear(); s.knots.clear(); s.naxes.clear();
@@ -217,10 +218,10 @@ inline std::string site_of(const std::string& m) {
   if (m.find("Invalid number of knots") == 0) return "knotCount:" + num("dimension ");
   if (m.find("Error reading knot vector ") == 0) { std::string r = num("vector "); return "knotData:" + r.substr(0, r.find(' ')); }
   if (m.find("Error reading extent data") == 0) return "extData";
-  if (m.find("Invalid spline table") == 0) return "invalid" + m.substr(strlen("Invalid spline table"));
+  if (m.find("Invalid spline table") == 0) return "invalid:" + m.substr(m.rfind(' ') + 1) + (m.find("inconsistent numbers") != std::string::npos ? ":1" : ":2");
   if (m.find("CFITSIO failed to open") == 0) return "open";
   if (m.find("splinetable already contains data") == 0) return "notEmpty";
-  return "other(" + m + ")";
+  std::string o = "other(" + m + ")"; for (auto& c : o) if (c == ' ' || c == '\n') c = '_'; return o;
 }
 
 inline bool object_empty(const Table& t) {
